@@ -871,23 +871,43 @@ pub async fn forge(world: &mut World, scn: &mut Scn, step: &Value) -> Result<Val
     };
     let tname = s(step, "to");
     let _ = dst.services.events.subcribe().await;
-    let mut live = scn.live_rooms.get(&(tname.clone(), room)).cloned();
-    let rx = world.rx.get_mut(&tname).unwrap();
-    loop {
-        match rx.try_recv() {
-            Ok(discret::Event::RoomModified(r)) => {
-                scn.live_rooms.insert((tname.clone(), r.id), r.clone());
-                if r.id == room {
-                    live = Some(r);
+    let live = live_matrix(world, scn, &tname, room, &dates, Some(&stored)).await;
+    Ok(json!({"verdict": accepted, "stored": stored, "live": live}))
+}
+
+/// decisions of the room carried by the last room-modified event of a peer.  Announcements are asynchronous: when `want`
+/// (the decisions of the stored definition) is given, events are awaited until the announced room decides the same, one
+/// second at most; without it, until some announcement of the room has been seen.
+async fn live_matrix(world: &mut World, scn: &mut Scn, pname: &str, room: Uid, dates: &[i64], want: Option<&Value>) -> Value {
+    let mut last = json!({"err": "no room-modified event"});
+    for _ in 0..200 {
+        {
+            let rx = world.rx.get_mut(pname).unwrap();
+            loop {
+                match rx.try_recv() {
+                    Ok(discret::Event::RoomModified(r)) => {
+                        scn.live_rooms.insert((pname.to_string(), r.id), r.clone());
+                    }
+                    Ok(_) => {}
+                    Err(tokio::sync::broadcast::error::TryRecvError::Lagged(_)) => {}
+                    Err(_) => break,
                 }
             }
-            Ok(_) => {}
-            Err(tokio::sync::broadcast::error::TryRecvError::Lagged(_)) => {}
-            Err(_) => break,
         }
+        let live = scn.live_rooms.get(&(pname.to_string(), room)).cloned();
+        if let Some(r) = &live {
+            last = matrix_of(r, scn, dates);
+        }
+        let done = match want {
+            Some(w) => w.get("err").is_some() || *w == last,
+            None => live.is_some(),
+        };
+        if done {
+            break;
+        }
+        tokio::time::sleep(std::time::Duration::from_millis(5)).await;
     }
-    let live = match live { Some(r) => matrix_of(&r, scn, &dates), None => json!({"err": "no room-modified event"}) };
-    Ok(json!({"verdict": accepted, "stored": stored, "live": live}))
+    last
 }
 
 /// the same room obtained through every construction path
@@ -904,24 +924,6 @@ pub async fn room_paths(world: &mut World, scn: &mut Scn, step: &Value) -> Resul
         p.write_barrier().await;
         let _ = p.services.events.subcribe().await;
     }
-    let mut live: Option<std::sync::Arc<vh::database::room::Room>> = scn.live_rooms.get(&(pname.clone(), room)).cloned();
-    {
-        let rx = world.rx.get_mut(&pname).unwrap();
-        loop {
-            match rx.try_recv() {
-                Ok(discret::Event::RoomModified(r)) => {
-                    scn.live_rooms.insert((pname.clone(), r.id), r.clone());
-                    if r.id == room {
-                        live = Some(r);
-                    }
-                }
-                Ok(_) => {}
-                Err(tokio::sync::broadcast::error::TryRecvError::Lagged(_)) => {}
-                Err(_) => break,
-            }
-        }
-    }
-    out.insert("live".to_string(), match &live { Some(r) => matrix_of(r, scn, &dates), None => json!({"err": "no room-modified event"}) });
     let p = &world.peers[&pname];
     // b. reload: the start-up query and load_json
     let reload = match p.db.query(RoomAuthorisations::LOAD_QUERY, None).await {
@@ -934,7 +936,10 @@ pub async fn room_paths(world: &mut World, scn: &mut Scn, step: &Value) -> Resul
         }
         Err(e) => json!({"err": e.to_string()}),
     };
+    let live = live_matrix(world, scn, &pname, room, &dates, Some(&reload)).await;
+    out.insert("live".to_string(), live);
     out.insert("reload".to_string(), reload);
+    let p = &world.peers[&pname];
     // c. restart on the same data folder
     let restart = match Peer::start_in(&format!("{pname}-again"), &p.user, MODEL, &world.config, p.folder.clone()).await {
         Ok(_) => json!("ok"),
@@ -964,22 +969,18 @@ pub async fn room_paths(world: &mut World, scn: &mut Scn, step: &Value) -> Resul
                 Ok(_) => {
                     imp.write_barrier().await;
                     let _ = imp.services.events.subcribe().await;
-                    let mut got = scn.live_rooms.get(&(iname.clone(), room)).cloned();
-                    let rx = world.rx.get_mut(&iname).unwrap();
-                    loop {
-                        match rx.try_recv() {
-                            Ok(discret::Event::RoomModified(r)) => {
-                                scn.live_rooms.insert((iname.clone(), r.id), r.clone());
-                                if r.id == room {
-                                    got = Some(r);
-                                }
+                    // the announced room is awaited until it decides like the definition the importer now stores
+                    let istored = match imp.db.query(RoomAuthorisations::LOAD_QUERY, None).await {
+                        Ok(jsn) => {
+                            let mut ra = RoomAuthorisations { signing_key: signing_key_of(&imp.user), rooms: HashMap::new(), max_node_size: 1 << 20 };
+                            match ra.load_json(&jsn) {
+                                Ok(_) => match ra.rooms.get(&room) { Some(r) => matrix_of(r, scn, &dates), None => json!({"err": "room not stored"}) },
+                                Err(e) => json!({"err": e.to_string()}),
                             }
-                            Ok(_) => {}
-                            Err(tokio::sync::broadcast::error::TryRecvError::Lagged(_)) => {}
-                            Err(_) => break,
                         }
-                    }
-                    match got { Some(r) => matrix_of(&r, scn, &dates), None => json!({"err": "no room-modified event"}) }
+                        Err(e) => json!({"err": e.to_string()}),
+                    };
+                    live_matrix(world, scn, &iname, room, &dates, Some(&istored)).await
                 }
                 Err(e) => json!({"err": e.to_string()}),
             },
